@@ -337,7 +337,8 @@ class SecurityConfiguratorMixin:
         intr['require_csrf'] = require_csrf
         intr['token'] = token
         intr['header'] = header
-        intr['safe_methods'] = as_sorted_tuple(safe_methods)
+        # record what is in effect; ``safe_methods`` may be a one-shot iterable
+        intr['safe_methods'] = as_sorted_tuple(options.safe_methods)
         intr['check_origin'] = check_origin
         intr['allow_no_origin'] = allow_no_origin
         intr['callback'] = callback
